@@ -95,6 +95,10 @@ class Driver:
                 if fault is not None:
                     fault.root_failed = True
                 raise
+            finally:
+                self.dirs_at_root_exit = self._dirs_now()
+
+        self.dirs_at_root_exit = self._dirs_now()
 
         w.env._perm = None            # the (unspecified) directory listing order may differ from build to build
         if fault is not None:
@@ -128,10 +132,15 @@ class Driver:
         self.last = (impl, ref, r[2])
         return impl, ref
 
-    def build_impl_only(self, prog, versions=None):
+    def _dirs_now(self):
+        w = self.w
+        return {p for p, s_ in w.fs.snapshot(w.root).items() if s_[0] == 'D'}
+
+    def build_impl_only(self, prog, versions=None, behaviour=None):
         """Run the implementation alone (twin runs); returns (outcome, calls)."""
         w = self.w
         si = Side(w, w.fs, False, prog)
+        si.behaviour = behaviour
         if not w.bound:
             w.bind()
         w.env._perm = None
@@ -171,12 +180,18 @@ class Driver:
                 # anything else inside it shows up as a tree difference; a
                 # reappearing directory needs its ancestors, so those may
                 # reappear with it (they hold nothing else, or the tree differs)
+                # - but the rollback itself creates recorded directories only: an ancestor that the previous commit did
+                # not record must have been there when the user's root function exited (made by the failed build)
                 todo = []
                 q = d
+                at_exit = getattr(self, 'dirs_at_root_exit', None)
                 while w.ref.kind(q) == ABSENT and w.fs.kind(q) == DIR:
+                    if q not in self.state.created_dirs and at_exit is not None and q not in at_exit:
+                        todo = None
+                        break
                     todo.append(q)
                     q = posixpath.dirname(q)
-                if w.ref.kind(q) == DIR:
+                if todo and w.ref.kind(q) == DIR:
                     for q in reversed(todo):
                         w.ref.add_dir(q)
 
